@@ -211,7 +211,7 @@ pub fn program_for(ins: &Ins, labels: &[DataLabel], sp: &Spelling) -> (String, u
 pub fn labels_of(ins: &Ins) -> Vec<DataLabel> {
     let mut v = Vec::new();
     let mut add = |o: &Opnd| {
-        if let Opnd::Label { name, off } = o {
+        if let Opnd::Label { name, off } | Opnd::Offset { name, off } = o {
             v.push(DataLabel { name: name.clone(), off: *off });
         }
     };
@@ -228,6 +228,8 @@ pub fn labels_of(ins: &Ins) -> Vec<DataLabel> {
         Ins::Push { src } => add(src),
         _ => {}
     }
+    let mut seen: Vec<String> = Vec::new();
+    v.retain(|l| if seen.contains(&l.name) { false } else { seen.push(l.name.clone()); true });
     v
 }
 
